@@ -341,3 +341,10 @@ Proof.
       * destruct spr; cbn; discriminate.
     + destruct spr; cbn; [discriminate|]. intros _. exists w, now. cbn. rewrite Ea. auto.
 Qed.
+
+(* ---- non-vacuity: premises are inhabited, results are non-degenerate (closed by computation) ------------------ *)
+(* C05_delivers: two pending replies then the final one, each inside its window (P2 = 1 s, P2* = 5 s, overall 5 s) *)
+Example c05_windows : in_windows (Some 5000000) 1000000 5000000 0 [1000; 600000; 4000000].
+Proof. cbn. unfold spec_wait. cbn. lia. Qed.
+Example c05_late_is_outside : ~ in_windows (Some 5000000) 1000000 5000000 0 [1000; 600000; 5600001].
+Proof. cbn. unfold spec_wait. cbn. lia. Qed.
